@@ -73,7 +73,7 @@ Spec == Init /\ [][Next]_vars
 (* outcome of a simulation is then a function of (parameters, seed) only.   *)
 (* MC_Pair.cfg checks NoSharing on all histories of <= 4 actions.           *)
 
-Objs == {"arr", "svc", "batch", "renege", "cct", "router"}   \* kinds of stateful objects of a Network
+Objs == {"arr", "svc", "batch", "renege", "cct", "router", "sched"}   \* kinds of stateful objects of a Network
 Sims == 1..3
 
 \* which object instance simulation s uses for kind o when built from network n:
